@@ -25,6 +25,7 @@ struct Scenario
 	DynNode doc;          // dyn family (with programs: some members are never requested)
 	DynNode plan;         // reading program when it differs from the document's own shape (validators that fail)
 	bool hasPlan = false;
+	bool duringUnwind = false;   // the operation is called from a destructor that runs while another exception unwinds the stack
 	Zoo zooValue;         // zoo family
 	std::string bytes;    // the intact document
 	ArchiveOps* ops = nullptr;
@@ -59,6 +60,21 @@ struct SubResult
 	std::string reloadFatal;
 };
 
+// Runs f from a destructor executed by stack unwinding (cleanup code that saves or loads state); f does not let anything escape
+struct UnrelatedError { int code; };
+template <class F>
+static void CallMaybeDuringUnwind(bool duringUnwind, F&& f)
+{
+	if (!duringUnwind) { f(); return; }
+	struct OnUnwind { F& fn; ~OnUnwind() { fn(); } };
+	try
+	{
+		OnUnwind guard{ f };
+		throw UnrelatedError{ 42 };
+	}
+	catch (const UnrelatedError&) {}
+}
+
 // One guarded library call with the whole life cycle of target, streams and temporaries inside the armed ledger
 template <class Body>
 static SubResult Ledgered(Body&& body)
@@ -90,7 +106,7 @@ static SubResult DoLoad(Scenario& sc, const std::string& bytes, sim::InFaults fa
 			target.skipIntKeyMaps = sc.zooValue.skipIntKeyMaps;
 			target.csvRoot = sc.zooValue.csvRoot;
 			t_failAllocNext = failAlloc;
-			res.r.Set(LoadZooWith(*sc.ops, target, bytes, sc.o, c, faults, throwMode, &info));
+			CallMaybeDuringUnwind(sc.duringUnwind, [&] { res.r.Set(LoadZooWith(*sc.ops, target, bytes, sc.o, c, faults, throwMode, &info)); });
 			res.allocs = t_lastCallAllocs;
 			res.faultFired = info.faultFired || sim::alloc().failFired;
 			// the partly loaded target must still be usable as an object: load the intact document into it
@@ -100,7 +116,7 @@ static SubResult DoLoad(Scenario& sc, const std::string& bytes, sim::InFaults fa
 		{
 			DynNode target = Skeleton(sc.hasPlan ? sc.plan : sc.doc);
 			t_failAllocNext = failAlloc;
-			res.r.Set(LoadDynWith(*sc.ops, target, bytes, sc.o, c, faults, throwMode, &info));
+			CallMaybeDuringUnwind(sc.duringUnwind, [&] { res.r.Set(LoadDynWith(*sc.ops, target, bytes, sc.o, c, faults, throwMode, &info)); });
 			res.allocs = t_lastCallAllocs;
 			res.faultFired = info.faultFired || sim::alloc().failFired;
 			if (!res.r.ok) { InCfg mem; CallResult again = LoadDynWith(*sc.ops, target, sc.bytes, sc.o, mem); (void)again; }
@@ -117,8 +133,11 @@ static SubResult DoSave(Scenario& sc, DynNode* altDoc, sim::OutFaults faults, ui
 		std::string bytes;
 		bool fired = false, sfail = false;
 		t_failAllocNext = failAlloc;
-		if (sc.zoo) res.r.Set(SaveZooWith(*sc.ops, sc.zooValue, bytes, sc.o, sc.outCfg, faults, &fired, &sfail));
-		else res.r.Set(SaveDynWith(*sc.ops, altDoc ? *altDoc : sc.doc, bytes, sc.o, sc.outCfg, faults, &fired, &sfail));
+		CallMaybeDuringUnwind(sc.duringUnwind, [&]
+		{
+			if (sc.zoo) res.r.Set(SaveZooWith(*sc.ops, sc.zooValue, bytes, sc.o, sc.outCfg, faults, &fired, &sfail));
+			else res.r.Set(SaveDynWith(*sc.ops, altDoc ? *altDoc : sc.doc, bytes, sc.o, sc.outCfg, faults, &fired, &sfail));
+		});
 		res.allocs = t_lastCallAllocs;
 		res.faultFired = fired || sim::alloc().failFired;
 		res.streamFailed = sfail;
@@ -150,6 +169,10 @@ Outcome RunC20(RunCtx& ctx)
 		sc.o.streamOptions.writeBom = true;
 	}
 	const std::string arch = ArchiveName(sc.archive);
+	// 1 scenario in 4 runs every operation from a destructor during stack unwinding; 1 throwing-stream scenario in 2 has failbit/eofbit
+	// in the stream's exception mask as well
+	sc.duringUnwind = s.chance(sim::L_CFG, 1, 4);
+	if (kind == F_THROW_LOAD && s.chance(sim::L_CFG, 1, 2)) sc.in.excMask = DrawExceptionMask(s, sim::L_CFG);
 
 	// ---- the scenario's document (small enough for a full sweep) ----
 	if (sc.zoo)
@@ -189,7 +212,8 @@ Outcome RunC20(RunCtx& ctx)
 	Outcome out;
 	out.cfgKey = arch + (sc.zoo ? "|zoo|" : "|dyn|") + FaultName(kind) + (sc.stream ? "|stream" : "|mem");
 	const std::string baseTags = "archive=" + arch + " family=" + (sc.zoo ? "zoo" : "dyn") + " fault=" + FaultName(kind) + " entry=" + (sc.stream ? (sc.in.seekable ? "stream:file" : "stream:pipe") : "mem");
-	ctx.note(baseTags + " options: " + OptStr(sc.o) + " in=" + sc.in.str() + " out=" + sc.outCfg.str());
+	ctx.note(baseTags + " options: " + OptStr(sc.o) + " in=" + sc.in.str() + " out=" + sc.outCfg.str() + (sc.duringUnwind ? " called-during-stack-unwinding" : ""));
+	if (sc.duringUnwind) { ctx.count("called_during_unwinding"); sim::probe("operation-called-during-stack-unwinding"); }
 	if (ctx.describe && !sc.zoo) ctx.note("document: " + Pretty(sc.doc));
 
 	sim::stream_call_budget(UINT64_MAX);
